@@ -229,10 +229,15 @@ func c07Run(c c07Case) (*vlib.Failure, c07Stats) {
 			if uint64(len(calls)) != n {
 				return vlib.Failf("%s: size %#x needs %d pages, %d were mapped", when, size, n, len(calls)), rs
 			}
-			for k, cl := range calls {
-				if cl.page != first+uint64(k) || cl.frame != op.Frame+uint64(k) || cl.flags != op.Flags {
-					return vlib.Failf("%s: mapping #%d is page %#x -> frame %#x flags %#x, want page %#x -> frame %#x flags %#x", when, k, cl.page, cl.frame, cl.flags, first+uint64(k), op.Frame+uint64(k), op.Flags), rs
+			// every page of the region once, page k of the region to frame k of the range (in
+			// which order the pages are mapped is the implementation's business)
+			seen := make(map[uint64]bool, len(calls))
+			for i, cl := range calls {
+				k := cl.page - first
+				if cl.page < first || k >= n || seen[k] || cl.frame != op.Frame+k || cl.flags != op.Flags {
+					return vlib.Failf("%s: mapping call #%d is page %#x -> frame %#x flags %#x; the region is pages [%#x,+%d), page k belongs to frame %#x+k with flags %#x, each page once (mapped twice: %v)", when, i, cl.page, cl.frame, cl.flags, first, n, op.Frame, op.Flags, seen[k]), rs
 				}
+				seen[k] = true
 			}
 		}
 	}
